@@ -7,7 +7,7 @@ from orch import log
 VERIF = build.VERIF
 PROP = "C19"
 # (module, config, runs_quick, workers_quick, runs_thorough, workers_thorough)
-PROGRAMS = [("Sim1", "default", 500, 8, 100000, 8), ("Sim2", "default", 250, 3, 40000, 3), ("Sim3", "default", 0, 0, 0, 0),
+PROGRAMS = [("Sim1", "default", 500, 8, 100000, 8), ("Sim2", "default", 250, 3, 40000, 3), ("Sim3", "default", 120, 2, 20000, 2),
             ("Sim1", "wide", 100, 3, 30000, 4)]
 TSAN_CFLAGS = ["-O1", "-g", "-fsanitize=thread", "-fno-omit-frame-pointer"]
 HARNESS_CFLAGS = ["-O1", "-g", "-fno-omit-frame-pointer"]
